@@ -1062,7 +1062,10 @@ func (c *Conn) handleBdat(arg string) {
 		// Backend might return an error early using CloseWithError without consuming
 		// the whole chunk.
 		io.Copy(ioutil.Discard, chunk)
-
+	}
+	// What follows the chunk, LAST or not, is a command line again.
+	c.lineLimitReader.setLimit(c.server.MaxLineLength)
+	if err != nil {
 		c.writeResponse(dataErrorToStatus(err))
 
 		if err == errPanic {
@@ -1070,15 +1073,12 @@ func (c *Conn) handleBdat(arg string) {
 		}
 
 		c.reset()
-		c.lineLimitReader.setLimit(c.server.MaxLineLength)
 		return
 	}
 
 	c.bytesReceived += int64(size)
 
 	if last {
-		c.lineLimitReader.setLimit(c.server.MaxLineLength)
-
 		c.bdatPipe.Close()
 
 		err := <-c.dataResult
@@ -1315,6 +1315,11 @@ func (c *Conn) readLine() (string, error) {
 	if err == nil && c.lineLimitReader.exceeded() {
 		// The buffered reader hands out the part of the line it had already
 		// collected and drops the limiter's error.
+		return "", ErrTooLongLine
+	}
+	if limit := c.server.MaxLineLength; err == nil && limit > 0 && len(line) >= limit {
+		// Octets read ahead while the limit was lifted for a BDAT chunk have
+		// not been counted by the limiter.
 		return "", ErrTooLongLine
 	}
 	return line, err
